@@ -95,7 +95,8 @@ impl BDDSet {
         let new: Rc<BDD<usize>> = self.bdd.borrow().clone();
         let _other = other.bdd.borrow().clone();
 
-        self.bdd.replace(self.env.and(new, _other));
+        self.bdd
+            .replace(self.env.and(new, self.env.not(_other)));
 
         self
     }
